@@ -143,7 +143,12 @@ func VerifFlvVideo() {
 // VerifFlvAudio: AAC frame and AAC sequence header tags.
 func VerifFlvAudio() {
 	N := symapi.Param("N", 4)
-	n := symapi.IntRange("n", 1, N)
+	n := symapi.IntRange("n", 1, N+2)
+	if n == N+1 { // two longer frames: longer than an ADTS header (7 / 9 bytes), whatever they start with
+		n = 8
+	} else if n == N+2 {
+		n = 12
+	}
 	pay := symapi.Bytes("pay", n)
 	asc := symapi.Bytes("asc", 2)
 	rate := []int{5512, 11025, 22050, 44100, 48000}[symapi.Choose("rate", 5)]
